@@ -18,7 +18,7 @@ fn kill_keeps(key_len: u16) -> Vec<u32> {
 }
 
 fn power_cut(rng: &mut Rng) -> PowerCut {
-    PowerCut { keep_permille: rng.below(1001) as u32, keep_bytes: if rng.chance(1, 3) { Some(rng.range(0, 300)) } else { None }, torn: *rng.pick(&[0u8, 0, 0, 1, 2]), others_keep_all: rng.chance(1, 2) }
+    PowerCut { keep_permille: rng.below(1001) as u32, keep_bytes: if rng.chance(1, 3) { Some(rng.range(0, 300)) } else { None }, torn: *rng.pick(&[0u8, 0, 0, 1, 2]), others_keep_all: rng.chance(1, 2), lost_write: if rng.chance(1, 4) { Some(rng.below(6) as u32) } else { None }, lost_block: None }
 }
 
 /// number of mutating I/O events of session 0 when nothing fails
@@ -42,7 +42,21 @@ pub fn gen_crash(property: &str, profile: &str, seed: u64) -> Plan {
     }
     plan.store.ignore_corrupted = sw.rng.chance(1, 6);
     sw.big_values = sw.rng.chance(1, 5);
-    let n0 = sw.rng.range(3, 28) as usize;
+    let big_index = profile.starts_with("crash-power-index");
+    if big_index {
+        // index files of several 4 KiB blocks: 200-byte keys, some hundred records per blob
+        plan.store.key_len = 200;
+        plan.n_keys = 120;
+        sw.n_keys = 120;
+        plan.store.max_data_in_blob = *sw.rng.pick(&[40u64, 80, 150]);
+        plan.store.max_blob_size = 10_000_000;
+        plan.store.deferred_min_ms = 100;
+        plan.store.deferred_max_ms = 300;
+        plan.store.ignore_corrupted = false;
+        plan.check_each_step = false;
+        sw.big_values = false;
+    }
+    let n0 = if big_index { sw.rng.range(100, 400) } else { sw.rng.range(3, 28) } as usize;
     let mut ops0 = Vec::new();
     for _ in 0..n0 {
         ops0.push(gen_op(&mut sw, &MIX_CRASH, plan.store.key_len));
@@ -75,6 +89,27 @@ pub fn gen_crash(property: &str, profile: &str, seed: u64) -> Plan {
     let mut s2 = SessionPlan::sequential(ops2);
     if sw.rng.chance(1, 3) {
         s2.validate_data = Some(sw.rng.chance(1, 2));
+    }
+    if profile.starts_with("crash-power-index") {
+        // the power fails while an index file is being written: its un-synced writes (body, then the
+        // header rewrite that marks it complete) reach the disk in any order
+        let mut cut = power_cut(&mut sw.rng);
+        cut.lost_write = None;
+        cut.lost_block = Some(sw.rng.below(64) as u32);
+        cut.others_keep_all = true;
+        cut.torn = 0;
+        s0.end = SessionEnd::PowerLoss(cut);
+        // per-step comparisons are off in this profile (120 keys): compare right after recovery
+        let uid = sw.uid();
+        s1.clients[0].insert(0, Op { uid, think_ms: 0, kind: OpKind::CheckNow });
+        let uid = sw.uid();
+        s1.clients[0].push(Op { uid, think_ms: 0, kind: OpKind::CheckNow });
+        let uid = sw.uid();
+        s2.clients[0].push(Op { uid, think_ms: 0, kind: OpKind::CheckNow });
+        plan.sessions = vec![s0, s1, s2];
+        let n = sw.rng.below(6);
+        plan.faults = vec![FaultSpec { session: 0, sel: Sel::Nth { kind: if sw.rng.chance(1, 2) { IoKind::Sync } else { IoKind::Write }, class: PathClass::Index, n }, action: FaultAction::Kill { keep: if sw.rng.chance(1, 2) { 0 } else { u32::MAX } } }];
+        return plan;
     }
     let double = profile.starts_with("crash-double");
     if double {
@@ -317,7 +352,7 @@ pub fn expand_sweep(base: &Plan, out: &RunOutcome, thorough: bool) -> Vec<Plan> 
             p.faults = vec![FaultSpec { session: 0, sel: Sel::Global { n: e }, action: FaultAction::Kill { keep } }];
             if let SessionEnd::PowerLoss(_) = p.sessions[0].end {
                 // every cut of the un-synced tail is its own run: vary the cut with the site
-                p.sessions[0].end = SessionEnd::PowerLoss(PowerCut { keep_permille: ((e * 131 + keep as u64 * 17) % 1001) as u32, keep_bytes: if e % 3 == 0 { Some((e * 7 + keep as u64) % 260) } else { None }, torn: ((e + keep as u64) % 5).min(2) as u8 % 3, others_keep_all: e % 2 == 0 });
+                p.sessions[0].end = SessionEnd::PowerLoss(PowerCut { keep_permille: ((e * 131 + keep as u64 * 17) % 1001) as u32, keep_bytes: if e % 3 == 0 { Some((e * 7 + keep as u64) % 260) } else { None }, torn: ((e + keep as u64) % 5).min(2) as u8 % 3, others_keep_all: e % 2 == 0, lost_write: if e % 5 == 4 { Some((e % 3) as u32) } else { None }, lost_block: None });
             }
             plans.push(p);
         }
